@@ -109,11 +109,7 @@ func corrProbe(r *Rng, which string) (line, got string) {
 		p := corrPath(r)
 		preserve := r.Bool()
 		out, recs := clip.VCleanCollinear(p, preserve)
-		got := showPath(out)
-		// fixSelfIntersects (not modelled) runs after the loop: the model answers "skip" when its
-		// ring has two crossing next-but-one edges, and the comparison is dropped then
-		_ = recs
-		return fmt.Sprintf("model clean %d %s", b2i(preserve), pathStr(p)), got
+		return fmt.Sprintf("model clean %d %s", b2i(preserve), pathStr(p)), fmt.Sprintf("%s %d", showPath(out), recs)
 	case "build":
 		p := corrPath(r)
 		rev, open := r.Bool(), r.Chance(0.3)
@@ -437,6 +433,73 @@ func corrProbe(r *Rng, which string) (line, got string) {
 			got = showPath(out)
 		}
 		return fmt.Sprintf("model offraw %d %d %d %s", jt, math.Float64bits(d), math.Float64bits(ml), pathStr(p)), got
+	case "buildpaths":
+		// 1-3 output records (some without points) through the whole post-sweep pipeline: cleanCollinear
+		// (removal loop + self-intersection repair, which appends records while the loop runs) and buildPath
+		var rings clip.Paths64
+		for k := r.Range(1, 3); k > 0; k-- {
+			if r.Chance(0.1) {
+				rings = append(rings, clip.Path64{})
+				continue
+			}
+			n := r.Range(1, 9)
+			g := r.Range(3, 10)
+			p := make(clip.Path64, 0, n)
+			for len(p) < n {
+				p = append(p, P{X: int64(r.Intn(g + 1)), Y: int64(r.Intn(g + 1))})
+			}
+			if r.Chance(0.3) {
+				m := int64(r.Range(2, 30))
+				for i := range p {
+					p[i] = P{X: p[i].X * m, Y: p[i].Y * m}
+				}
+			}
+			rings = append(rings, p)
+		}
+		preserve, rev := r.Bool(), r.Chance(0.3)
+		var out clip.Paths64
+		if f := safeCall(func() { out = clip.VBuildPaths(rings, preserve, rev) }); f != "" {
+			return fmt.Sprintf("model buildpaths %d %d %s", b2i(preserve), b2i(rev), pathsStr(rings)), "fault"
+		}
+		var ss []string
+		for _, q := range out {
+			ss = append(ss, showPath(q))
+		}
+		return fmt.Sprintf("model buildpaths %d %d %s", b2i(preserve), b2i(rev), pathsStr(rings)), strings.Join(ss, " ; ")
+	case "split":
+		// output rings whose next-but-one edges cross (what rounding of intersection points leaves behind):
+		// dense small-grid rings, optionally spread out so that the float areas differ in size
+		n := r.Range(4, 9)
+		g := int64(r.Range(3, 12))
+		p := make(clip.Path64, 0, n)
+		for len(p) < n {
+			q := P{X: int64(r.Intn(int(g) + 1)), Y: int64(r.Intn(int(g) + 1))}
+			if len(p) > 0 && p[len(p)-1] == q {
+				continue
+			}
+			p = append(p, q)
+		}
+		if r.Chance(0.3) {
+			k := int64(r.Range(2, 40))
+			for i := range p {
+				p[i] = P{X: p[i].X*k + int64(r.Range(-1, 1)), Y: p[i].Y*k + int64(r.Range(-1, 1))}
+			}
+		}
+		var main clip.Path64
+		var dropped bool
+		var news clip.Paths64
+		if f := safeCall(func() { main, dropped, news = clip.VFixSelfIntersects(p) }); f != "" {
+			return "model split " + pathStr(p), "fault"
+		}
+		m := showPath(main)
+		if dropped {
+			m = "dropped"
+		}
+		var ns []string
+		for _, q := range news {
+			ns = append(ns, showPath(q))
+		}
+		return "model split " + pathStr(p), m + " | " + strings.Join(ns, " ; ")
 	case "contain":
 		// the containment vote of the PolyTree owner search: rings on small grids (vertices ON the
 		// other ring, shared edges, crossings), so that all three stages of the test are reached
@@ -736,7 +799,7 @@ func corrProbe(r *Rng, which string) (line, got string) {
 }
 
 var genProbes = []string{"triSign", "multiplyUInt64", "productsAreEqual", "isCollinear", "CrossProduct", "dotProduct64", "segsIntersect", "checkPrecision", "IsOdd", "ptsReallyClose", "isContributingClosed", "isContributingOpen", "getLocation", "getEdgesForPt", "isHeadingClockwise", "headingClockwise", "getAdjacentLocation", "areOpposites", "hasHorzOverlap", "hasVertOverlap", "isClockwise", "getSegmentIntersection", "getSegmentIntersectPt", "rectMethods", "getBounds", "GetBounds64", "Area64", "PerpendicDistFromLineSqr64", "PerpendicDistFromLineSqrD", "areaTriangle"}
-var modelProbes = []string{"offplan", "rectpoly", "rectline", "pipop", "scan", "lowest", "trim", "simp64", "pip", "strip", "mink", "vertex", "clean", "build", "tree", "tree", "areaop", "contain", "aelins", "offraw"}
+var modelProbes = []string{"offplan", "rectpoly", "rectline", "pipop", "scan", "lowest", "trim", "simp64", "pip", "strip", "mink", "vertex", "clean", "build", "tree", "tree", "areaop", "contain", "aelins", "offraw", "split", "buildpaths", "split", "buildpaths"}
 
 func corrStage(name string, probes []string, quick, thorough int, rule string) {
 	stages[name] = func(ctx *Ctx, cnt func(q, t int) int, replay string) Result {
@@ -768,5 +831,5 @@ func corrStage(name string, probes []string, quick, thorough int, rule string) {
 func init() {
 	corrStage("gen-corr", genProbes, 60000, 3000000, "translator validation: every generated function (Gen.*) is evaluated by the Lean oracle on operand-value inputs and compared with the real function called in-process (sign only for float64 cross / dot products, bit patterns for Area64, areaTriangle, PerpendicDistFromLineSqr64 and PerpendicDistFromLineSqrD, the last on float operands up to 2^29 with segments up to 2^28 long); non-trivial = any probe with a non-empty argument list")
 	corrStage("wind-corr", []string{"windc", "windx", "windd", "windc", "windd", "windopen"}, 60000, 2500000, "correspondence of the winding-count bookkeeping model (Model.Wind) with the real setWindCountForClosedPathEdge / setWindCountForOpenPathEdge / intersectEdges (counts, hotness afterwards and output records created, for hot / cold / front / back / shared-record combinations) run on synthetic active-edge lists (verif hook): 0-5 edges left of the new edge, subject / clip / open edges, all four fill rules, counts either produced by the real insertion (consistent states) or arbitrary in -3..3; resulting counts compared exactly")
-	corrStage("models-corr", modelProbes, 180000, 5000000, "function-level correspondence of the hand models (TrimCollinear64, SimplifyPath64, PointInPolygon, StripDuplicates, minkowskiInternal, addPathsToVertexList [vertex ring, flags, local minima], cleanCollinear's removal loop and buildPath on synthetic output rings, buildTree on synthetic tables of output records with nested / disjoint rectangles, arbitrary owner links and splits lists, pointInOpPolygon, path1InsidePath2 / getCleanPath on synthetic rings and the exported Path2ContainsPath1, isValidAelOrder / insertLeftEdge on synthetic active-edge lists (0-5 residents, shared bottom points, equal x, collinear edges, joined pairs), areaOP on synthetic rings at magnitudes up to 2^40 (float bit patterns), Group.GetLowestPathInfo, insertScanline / popScanline, RectClipLinesPaths64 [whole line machine] the raw rings of RectClip64.executeInternal [polygon state machine before checkEdges], the raw offset ring of one closed path [getUnitNormal, buildNormals, offsetPolygon, offsetPoint, doMiter / doSquare / doBevel and their float helpers, bit for bit, edges up to 2^35 long], and the decision events of ClipperOffset.Execute64 [group delta, per-path dispatch, final union]): random paths of 0-8 vertices on 2-4 wide grids (forcing duplicates, collinear runs, wrap-around cases) at three magnitudes; outputs compared exactly; the clean probe is skipped when fixSelfIntersects (not modelled) would act")
+	corrStage("models-corr", modelProbes, 230000, 6000000, "function-level correspondence of the hand models (TrimCollinear64, SimplifyPath64, PointInPolygon, StripDuplicates, minkowskiInternal, addPathsToVertexList [vertex ring, flags, local minima], cleanCollinear's removal loop and buildPath on synthetic output rings, fixSelfIntersects / doSplitOp on rings whose next-but-one edges cross [remaining ring, dropped rings, created records], buildPaths on 1-3 synthetic records [the whole post-sweep pipeline incl. records appended while the loop runs], buildTree on synthetic tables of output records with nested / disjoint rectangles, arbitrary owner links and splits lists, pointInOpPolygon, path1InsidePath2 / getCleanPath on synthetic rings and the exported Path2ContainsPath1, isValidAelOrder / insertLeftEdge on synthetic active-edge lists (0-5 residents, shared bottom points, equal x, collinear edges, joined pairs), areaOP on synthetic rings at magnitudes up to 2^40 (float bit patterns), Group.GetLowestPathInfo, insertScanline / popScanline, RectClipLinesPaths64 [whole line machine] the raw rings of RectClip64.executeInternal [polygon state machine before checkEdges], the raw offset ring of one closed path [getUnitNormal, buildNormals, offsetPolygon, offsetPoint, doMiter / doSquare / doBevel and their float helpers, bit for bit, edges up to 2^35 long], and the decision events of ClipperOffset.Execute64 [group delta, per-path dispatch, final union]): random paths of 0-8 vertices on 2-4 wide grids (forcing duplicates, collinear runs, wrap-around cases) at three magnitudes; outputs compared exactly")
 }
